@@ -93,7 +93,7 @@ def main():
     os.makedirs(work, exist_ok=True)
 
     base_env = dict(GOENV, VERIF_CHECK=cid, VERIF_TIER=tier, VERIF_SEED=str(seed),
-                    VERIF_CASE_TIMEOUT=spec.get("case_timeout", "120s"))
+                    VERIF_CASE_TIMEOUT=spec.get("case_timeout", "40s"))
     if race:
         base_env["GORACE"] = "halt_on_error=0 log_path=%s" % os.path.join(work, "race")
     # how many cases?
@@ -151,7 +151,8 @@ def main():
                         log = tail(os.path.join(work, "shard%d.log" % sh), 12000)
                         status = "timeout" if rc == 124 else "died"
                         died.append({"case": case, "status": status, "rc": rc, "log": log})
-                    if not replay and restarts < 200:
+                    hangs_so_far = sum(1 for d in died if d["status"] in ("timeout",)) + count_hangs(work, nshards)
+                    if not replay and restarts < 200 and hangs_so_far < 4:
                         restarts += 1
                         env = dict(base_env, VERIF_OUT=out, VERIF_SHARD="%d/%d" % (sh, nshards), VERIF_START=str(case["idx"] + 1))
                         with open(os.path.join(work, "shard%d.log" % sh), "ab") as lf:
@@ -193,7 +194,13 @@ def main():
             if st.get(nontrivial_stat, 0) > 0 and r.get("sig"):
                 sigs_nontrivial.add(r["sig"])
         elif r.get("status") == "hang":
-            hangs.append(r)
+            locks = persistent_lock_waits(r.get("dump"), r.get("dump2"))
+            if locks and cid in HANG_PROPS:
+                fn = locks[0][0].replace("github.com/jhump/grpctunnel.", "")
+                violations.append((cid, "library-lock-wait-never-ends:" + fn,
+                                   "scenario made no progress for the whole watchdog period; %d goroutine(s) sit in a mutex wait inside the library in two dumps taken 3 s apart (a goroutine holding that mutex is blocked for good):\n%s" % (len(locks), locks[0][1]), r["case"]))
+            else:
+                hangs.append(r)
         for v in r.get("violations") or []:
             if v["prop"] == cid:
                 violations.append((v["prop"], v["key"], v["msg"], r["case"]))
@@ -314,6 +321,49 @@ def main():
         print("INCONCLUSIVE: " + "; ".join(inconclusive))
         sys.exit(2)
     sys.exit(0)
+
+
+def count_hangs(work, nshards):
+    n = 0
+    for sh in range(nshards):
+        out = os.path.join(work, "shard%d.jsonl" % sh)
+        if os.path.exists(out):
+            with open(out) as f:
+                for line in f:
+                    if line.startswith('{"case"') and '"status":"hang"' in line[:400]:
+                        n += 1
+    return n
+
+
+HANG_PROPS = {"C03", "C04", "C05", "C07", "C09", "C10", "C15"}
+GOHDR = re.compile(r"^goroutine (\d+) \[([^\]]*)\]:", re.M)
+
+
+def persistent_lock_waits(d1, d2):
+    """goroutines blocked in a mutex wait inside the library in both dumps"""
+    def waits(d):
+        out = {}
+        for b in (d or "").split("\n\n"):
+            m = GOHDR.search(b)
+            if not m:
+                continue
+            st = m.group(2)
+            if "sync.Mutex.Lock" not in st and "sync.RWMutex" not in st and "semacquire" not in st:
+                continue
+            # first frame that is neither runtime nor sync
+            lines = b.split("\n")[1:]
+            fn = None
+            for i in range(0, len(lines), 2):
+                f = lines[i].strip()
+                if f.startswith(("internal/sync.", "sync.", "runtime.", "internal/runtime")):
+                    continue
+                fn = re.sub(r"\([^()]*\)$", "", f)
+                break
+            if fn and fn.startswith("github.com/jhump/grpctunnel."):
+                out[m.group(1)] = (fn, "\n".join(b.split("\n")[:14]))
+        return out
+    w1, w2 = waits(d1), waits(d2)
+    return [w2[g] for g in w2 if g in w1 and w1[g][0] == w2[g][0]]
 
 
 def panic_site(log):
